@@ -248,7 +248,14 @@ def _compile_files_cache(filenames,
                          encoding,
                          cache_dir,
                          numeric_enums):
-    key = [codec.encode('ascii')]
+    # Everything that influences the compiled specification is part
+    # of the key.
+    key = [
+        repr((codec,
+              any_defined_by_choices,
+              encoding,
+              numeric_enums)).encode('utf-8')
+    ]
 
     if isinstance(filenames, str):
         filenames = [filenames]
